@@ -3,8 +3,10 @@ package main
 // rule_layout.go — R-LAYOUT (C06).
 
 import (
+	"fmt"
 	"go/constant"
 	"go/token"
+	"go/types"
 	"strings"
 
 	"golang.org/x/tools/go/ssa"
@@ -434,6 +436,7 @@ func (m *Model) RunLayout(s *Sink, rule string) {
 		check(fnKey(er)+"|a reserve without an insert renders nothing", m.Pos(er.Pos()), okNil,
 			"NIL is returned exactly when node.Insert == nil",
 			"a reserve the page does not fill does not evaluate to the empty NIL object")
+		m.reserveNilCase(s, rule)
 	}
 	// reserves are registered by the parser wherever they nest
 	prs := m.Method("parser", "Parser", "parseReserveStmt")
@@ -461,6 +464,20 @@ func (m *Model) RunLayout(s *Sink, rule string) {
 					}
 				}
 			}
+		}
+		if !ok {
+			// ... or in a helper the statement is handed to
+			m.walkInlined(prs, 2, func(in ssa.Instruction, resolve func(ssa.Value) ssa.Value, depth int) {
+				mu, isMu := in.(*ssa.MapUpdate)
+				if !isMu || depth == 0 || !strings.HasSuffix(fieldPathOf(mu.Map), ".reserves") || !strings.HasSuffix(fieldPathOf(mu.Key), ".Name.Value") {
+					return
+				}
+				if root, _, okP := pathOf(mu.Key); okP {
+					if _, isAlloc := resolve(root).(*ssa.Alloc); isAlloc && resolve(mu.Value) == resolve(root) {
+						ok = true // the statement built here, under its own name
+					}
+				}
+			})
 		}
 		check(fnKey(prs)+"|reserves are registered by name at any nesting depth", m.Pos(prs.Pos()), ok,
 			"parseReserveStmt (reached from parseStatement at any depth) stores the statement into the parser-level table under its name",
@@ -536,4 +553,66 @@ func callsToFn(fn, callee *ssa.Function) []*ssa.Call {
 		}
 	}
 	return out
+}
+
+// reserveNilCase: Eval is run on a reserve statement whose Insert is nil, with an evaluator and a scope about which
+// nothing is known: whatever the evaluator's settings are, the result is the nil object (or an empty text). A reserve
+// that leaves a marker behind in some mode ("<!-- reserve 'x' is empty -->" in debug mode) is not "replaced by nothing".
+func (m *Model) reserveNilCase(s *Sink, rule string) {
+	ev := m.Method("evaluator", "Evaluator", "Eval")
+	rt := m.namedType("ast", "ReserveStmt")
+	nilT, htmlT, strT := m.namedType("object", "Nil"), m.namedType("object", "HTML"), m.namedType("object", "Str")
+	key := "evaluator.Eval|a reserve without an insert evaluates to nothing, whatever the settings"
+	if ev == nil || rt == nil || nilT == nil {
+		s.Undecided(rule, key, "-", "Eval / ast.ReserveStmt / object.Nil not found")
+		return
+	}
+	fIns := -1
+	st := rt.Underlying().(*types.Struct)
+	for i := 0; i < st.NumFields(); i++ {
+		if canonFieldName(rt, i, st.Field(i).Name()) == "Insert" {
+			fIns = i
+		}
+	}
+	if fIns < 0 {
+		s.Undecided(rule, key, "-", "ast.ReserveStmt.Insert not found")
+		return
+	}
+	node := &iStruct{typ: rt, fields: map[int]any{fIns: iNil{}}}
+	ip := &Interp{m: m, useGlobals: true}
+	res, known := ip.Run(ev, []any{iObj{"evaluator"}, node, iObj{"env"}})
+	if ip.stuck != "" || len(ip.lost) > 0 || !known {
+		why := ip.stuck
+		if why == "" && len(ip.lost) > 0 {
+			why = fnKey(ip.lost[0]) + " could not be evaluated"
+		}
+		s.Undecided(rule, key, m.Pos(ev.Pos()), "what a reserve without an insert evaluates to depends on something other than the statement (%s): it is nothing only in some configurations", why)
+		return
+	}
+	o, isO := res.(*iStruct)
+	empty := isO && o.typ == nilT
+	if isO && (o.typ == htmlT || o.typ == strT) {
+		for _, v := range o.fields {
+			if c, isC := v.(constant.Value); isC && c.Kind() == constant.String && constant.StringVal(c) == "" {
+				empty = true
+			}
+		}
+	}
+	if empty {
+		s.OK(rule, key, m.Pos(ev.Pos()), "case evaluation of Eval on a ReserveStmt with Insert == nil and an unknown evaluator: the nil object")
+	} else {
+		s.Violation(rule, key, m.Pos(ev.Pos()), "Eval of a reserve statement without an insert yields %s, not the nil object: the reserve is not replaced by nothing", describeAny(res))
+	}
+}
+
+func describeAny(v any) string {
+	switch x := v.(type) {
+	case *iStruct:
+		if x.typ != nil {
+			return "a " + x.typ.Obj().Name() + " object"
+		}
+	case nil:
+		return "an unknown value"
+	}
+	return fmt.Sprintf("%v", v)
 }
